@@ -103,7 +103,15 @@ func (s *Solver) fallback(extra *Term, wantModel []*Term) (string, []*big.Int, s
 		os.WriteFile(fmt.Sprintf("%s/q%d_%d.smt2", d, os.Getpid(), dumpCounter), []byte(sb.String()), 0o644)
 	}
 	secs := fmt.Sprint((s.FallbackMs + 999) / 1000)
+	quick := "10"
+	if s.FallbackMs < 10000 {
+		quick = secs
+	}
 	cmds := [][]string{
+		// the same solver one-shot: outside incremental mode z3 applies its
+		// full preprocessing, which decides e.g. small modular nonlinear
+		// queries in a fraction of a second
+		{"z3", "-T:" + quick, f.Name()},
 		{"cvc5", "--solve-bv-as-int=sum", "--produce-models", "--tlimit=" + fmt.Sprint(s.FallbackMs), f.Name()},
 		{"z3-new", "-T:" + secs, f.Name()},
 		{"cvc5", "--produce-models", "--tlimit=" + fmt.Sprint(s.FallbackMs), f.Name()},
